@@ -14,7 +14,10 @@ RULE = ("case = control script (wind depth <= 4, <= 3 captured continuations eac
         "Non-trivial: the model's trace shows at least one re-entry or escape across a wind (an 'in'/'out' marker repeated) or a handler "
         "invocation; distinct = hash of (script, world decisions that fired).")
 ASSUMPTIONS = [
-    "scripts stay inside what R7RS defines: no escape from before/after thunks, non-continuable raises are always escaped from, "
+    "scripts stay inside what the wind model defines: before/after thunks transfer control (escape, raise, re-entry) only when "
+    "dynamic-wind itself runs them on a normal entry/exit -- there they execute in the extent of the dynamic-wind call, as in every "
+    "reference implementation, and no thunk of that wind may run a second time for the same entry/exit -- and never while a "
+    "continuation transfer is running them; non-continuable raises are always escaped from, "
     "guard clauses have no side effects (chibi evaluates them before unwinding; with effect-free clauses that is unobservable)",
     "the tape decides which continuation/generator resumes next: the nondeterminism is introduced by the workload (cooperative tasks), "
     "GC/preemption/stack-size perturbations are layered on top",
@@ -44,6 +47,8 @@ class Gen:
         self.ng = rng.range(0, 3)        # generators
         self.counter = 0
         self.budget = rng.range(8, 40)   # statements
+        self.flags = []                  # per-wind flags for thunks that act on a normal entry / exit
+        self.acting = rng.chance(1, 3)   # scripts whose before/after thunks transfer control when run by a normal entry/exit
 
     def fresh(self, prefix):
         self.counter += 1
@@ -84,6 +89,23 @@ class Gen:
             return [S("note"), q(self.fresh("s"))]
         if c == "notep":
             return [S("note"), [S("list"), q("p"), [S("p1")], [S("p2")]]]
+        if c == "wind" and self.acting and r.chance(1, 2):
+            # thunks that transfer control -- only when dynamic-wind itself calls them on the normal way in (first call of the
+            # before thunk) or out (the body has just finished normally), never while a continuation transfer is running them:
+            # they then execute in the dynamic extent of the dynamic-wind call, so an escape/raise/re-entry from them must not
+            # run any thunk of this wind again
+            t = self.fresh("w")
+            fb, fa = "fb-" + t, "fa-" + t
+            self.flags += [fb, fa]
+            before = [S("lambda"), [], [S("note"), [S("list"), q("in-" + t), [S("p1")]]]]
+            after = [S("lambda"), [], [S("note"), [S("list"), q("out-" + t), [S("p2")]]]]
+            if r.chance(1, 3):
+                before.append([S("if"), [S("not"), S(fb)], [S("begin"), [S("set!"), S(fb), True], self.thunk_action(hstack)]])
+            if r.chance(3, 4):
+                after.append([S("if"), S(fa), [S("begin"), [S("set!"), S(fa), False], self.thunk_action(hstack)]])
+            return [S("dynamic-wind"), before,
+                    [S("lambda"), []] + self.stmts(depth + 1, hstack, in_gen) + [[S("set!"), S(fa), True]],
+                    after]
         if c == "wind":
             t = self.fresh("w")
             return [S("dynamic-wind"), [S("lambda"), [], [S("note"), [S("list"), q("in-" + t), [S("p1")]]]],
@@ -129,6 +151,25 @@ class Gen:
             return [S("note"), [S("list"), q(self.fresh("got")), [S("next%d" % g), self.value()]]]
         return [S("note"), q("x")]
 
+    def thunk_action(self, hstack):
+        r = self.rng
+        choices = [("invoke", 4), ("note", 1)]
+        if hstack:
+            choices += [("raise-c", 2)]
+            if hstack[-1] in ("esc", "guard"):
+                choices += [("raise", 4)]
+        c = r.weighted(choices)
+        if c == "invoke":
+            i = r.range(1, self.nk)
+            return [S("if"), [S("procedure?"), S("k%d" % i)],
+                    [S("if"), [S("<"), S("n%d" % i), r.range(1, 2)],
+                     [S("begin"), [S("set!"), S("n%d" % i), [S("+"), S("n%d" % i), 1]], [S("note"), q(self.fresh("tjump"))], [S("k%d" % i), self.value()]]]]
+        if c == "raise-c":
+            return [S("note"), [S("list"), q(self.fresh("trc")), [S("raise-continuable"), self.value()]]]
+        if c == "raise":
+            return [S("raise"), self.value()]
+        return [S("note"), q(self.fresh("tn"))]
+
     def program(self):
         body = []
         body.append([S("define"), S("p1"), [S("make-parameter"), 1]])
@@ -159,6 +200,7 @@ class Gen:
                                                  [S("with-exception-handler"), [S("lambda"), [S("e")], [S("top"), [S("list"), q("uncaught"), S("e")]]],
                                                   [S("lambda"), []] + main + [q("normal")]]]]]])
         body.append(q("end"))
+        body = [[S("define"), S(f), False] for f in self.flags] + body
         return [S("let"), []] + body
 
 
@@ -191,7 +233,7 @@ def generate(rng, tier, index, seed):
     if threaded:
         expect += "#t"
     return {"prop": ID, "index": index, "seed": seed, "config": cfg,
-            "meta": {"family": ("threaded" if threaded else "single") + "-" + cfg, "model_status": status, "trace_len": len(trace),
+            "meta": {"family": ("threaded" if threaded else "single") + ("-acting" if g.flags else "") + "-" + cfg, "model_status": status, "trace_len": len(trace),
                      "script": wm.render(prog)},
             "steps": [{"op": "eval", "src": SCHEME_PRELUDE}, {"op": "eval", "src": scheme_source(prog, threaded)}],
             "expect": expect, "gc": gc, "sched": sched, "threaded": threaded}
